@@ -518,4 +518,81 @@ theorem raise_fields_seen_by_handler (ty : String) (detail : List Nat) (data : V
     run (errObject (raiseSig ty detail data line pos)) s =
       (.ok (.map s.maps.size), { s with maps := s.maps.push (raisedObject ty detail data) }) := rfl
 
+/-! ### range (the end test the evaluator runs on `Float`, here at `Int`) and map order -/
+
+/-- **loop_range_inclusive**, ascending: from `fr ≤ to` on, a value at or after the start is delivered
+    exactly when it is not beyond `to` — the end is inclusive -/
+theorem loop_range_inclusive_pos (fr to cur : Int) (h : fr ≤ to) (hc : fr ≤ cur) :
+    rangeDone intOps fr to cur = false ↔ cur ≤ to := by
+  simp only [rangeDone, intOps, Bool.or_eq_false_iff, Bool.and_eq_false_iff, decide_eq_false_iff_not,
+    Bool.not_eq_false', beq_iff_eq, beq_eq_false_iff_ne, ne_eq, Int.not_lt]
+  omega
+
+/-- **loop_range_inclusive**, descending (negative step): from `to ≤ fr` on, a value at or before the
+    start is delivered exactly when it is not below `to` -/
+theorem loop_range_inclusive_neg (fr to cur : Int) (h : to ≤ fr) (hc : cur ≤ fr) :
+    rangeDone intOps fr to cur = false ↔ to ≤ cur := by
+  simp only [rangeDone, intOps, Bool.or_eq_false_iff, Bool.and_eq_false_iff, decide_eq_false_iff_not,
+    Bool.not_eq_false', beq_iff_eq, beq_eq_false_iff_ne, ne_eq, Int.not_lt]
+  omega
+
+/-- **loop_range_inclusive**, equal bounds: `range(a, a)` delivers `a` and nothing else -/
+theorem loop_range_equal_bounds (a c : Int) :
+    rangeDone intOps a a a = false ∧ (c ≠ a → rangeDone intOps a a c = true) := by
+  constructor
+  · simp [rangeDone, intOps]
+  · intro h; simp [rangeDone, intOps, h]
+
+example : rangeVals intOps 1 3 1 10 1 = [1, 2, 3] := by decide
+example : rangeVals intOps 5 1 (-2) 10 5 = [5, 3, 1] := by decide
+example : rangeVals intOps 3 3 1 10 3 = [3] := by decide
+
+theorem insertBy_perm {α : Type} (lt : α → α → Bool) (x : α) (ys : List α) : (insertBy lt x ys).Perm (x :: ys) := by
+  induction ys with
+  | nil => exact List.Perm.refl _
+  | cons y ys ih =>
+    simp only [insertBy]
+    split
+    · exact List.Perm.refl _
+    · exact (List.Perm.cons y ih).trans (List.Perm.swap x y ys)
+
+/-- **loop_map_sorted**: the key order of a map loop is a permutation of the keys … -/
+theorem sortBy_perm {α : Type} (lt : α → α → Bool) (xs : List α) : (sortBy lt xs).Perm xs := by
+  induction xs with
+  | nil => exact List.Perm.refl _
+  | cons x xs ih => exact (insertBy_perm lt x _).trans (List.Perm.cons x ih)
+
+/-- … in ascending order of `lt` (no element is smaller than one before it), for every order `lt` that is
+    asymmetric and whose "not greater" is transitive — as the byte order of the keys' string forms is -/
+theorem sortBy_sorted {α : Type} (lt : α → α → Bool)
+    (asym : ∀ a b, lt a b = true → lt b a = false)
+    (trans : ∀ a b c, lt b a = false → lt c b = false → lt c a = false) (xs : List α) :
+    (sortBy lt xs).Pairwise (fun a b => lt b a = false) := by
+  have hins : ∀ (x : α) (ys : List α), ys.Pairwise (fun a b => lt b a = false) →
+      (insertBy lt x ys).Pairwise (fun a b => lt b a = false) := by
+    intro x ys
+    induction ys with
+    | nil => intro _; simp [insertBy]
+    | cons y ys ih =>
+      intro hp
+      rw [List.pairwise_cons] at hp
+      simp only [insertBy]
+      split
+      · rename_i hxy
+        refine List.pairwise_cons.2 ⟨?_, List.pairwise_cons.2 hp⟩
+        intro z hz
+        rcases List.mem_cons.1 hz with rfl | hz
+        · exact asym _ _ hxy
+        · exact trans _ _ _ (asym _ _ hxy) (hp.1 z hz)
+      · rename_i hxy
+        refine List.pairwise_cons.2 ⟨?_, ih hp.2⟩
+        intro z hz
+        have hm : z ∈ x :: ys := (insertBy_perm lt x ys).mem_iff.1 hz
+        rcases List.mem_cons.1 hm with rfl | hz'
+        · simpa using hxy
+        · exact hp.1 z hz'
+  induction xs with
+  | nil => exact List.Pairwise.nil
+  | cons x xs ih => exact hins x _ ih
+
 end Ecal.Props.C04
